@@ -7,6 +7,7 @@
 -/
 import ClientGoVerif.Proofs.Perc
 import ClientGoVerif.Proofs.MvccFullSec
+import ClientGoVerif.Proofs.MvccLockKept
 namespace CGV.Props.C04
 open CGV CGV.Mvcc CGV.Perc
 
@@ -155,6 +156,164 @@ theorem async_recovery_committed_key_reports_commit_ts (f : FStore) (pre post : 
     (hr : txnCommitInfo (getEntry f.base.kv k).writes T = some c) (hv : c.vt ≠ .rollback) :
     (fcheckSecondaryLocks f (pre ++ k :: post) T).2.locks = [] ∧ (fcheckSecondaryLocks f (pre ++ k :: post) T).2.commitTS = c.commitTS :=
   sec_first_committed f pre post k T c hpre hl hr hv
+
+/-! ### why "all async prewrites acknowledged" means "can only be committed" — the three links, at the store:
+    (1) an acknowledged prewrite leaves every locking mutation's key locked by the transaction (`acknowledged_prewrite_…`);
+    (2) such a lock stays until the transaction's own commit / rollback step on that key (`prewrite_lock_stays_…`);
+    (3) CheckSecondaryLocks over keys that are all locked answers "every key locked, commit ts 0" and touches nothing
+        (`async_recovery_all_locked_reports_every_key`), and a status check leaves an async-commit primary alone.
+    `all_acknowledged_async_prewrites_force_commit` composes them over the transaction's prewrite batches. -/
+
+/-- (1) base store: an acknowledged prewrite (no mutation answered with an error) leaves the key of every mutation other
+    than CheckNotExists locked by the transaction with a prewrite lock.  Keys may repeat among the mutations. -/
+theorem acknowledged_prewrite_locks_every_key_base (s : Store) (r : PrewriteReq) (hs : SInv s)
+    (hok : (prewrite s r).2.any Option.isSome = false) (hops : ∀ m ∈ r.mutations, m.op ≠ .pessimisticLock) :
+    ∀ m ∈ r.mutations, m.op ≠ .checkNotExists →
+      ∃ l, (getEntry (prewrite s r).1.kv m.key).lock = some l ∧ l.startTS = r.startTS ∧ l.op ≠ .pessimisticLock :=
+  prewrite_ack_locks s r hs _ _ rfl hok hops
+
+open CGV.MvccFull in
+/-- (1) full store: an acknowledged prewrite without one-phase commit — plain 2PC, async commit, or the fallback when
+    max_commit_ts cannot be honoured — that is not the idempotent answer to an already committed transaction
+    (`ownCommitTS f r = none`; that answer writes nothing) leaves every locking mutation's key `PrewriteLocked` -/
+theorem acknowledged_prewrite_locks_every_key (f : FStore) (r : PrewriteReq) (x : FPrewriteExtra) (hs : SInv f.base)
+    (hx : x.tryOnePC = false) (hown : ownCommitTS f r = none)
+    (hok : (fprewrite f r x).2.errs.any Option.isSome = false)
+    (hops : ∀ m ∈ r.mutations, m.op ≠ .pessimisticLock) :
+    ∀ m ∈ r.mutations, m.op ≠ .checkNotExists → PrewriteLocked (fprewrite f r x).1 r.startTS m.key :=
+  fprewrite_ack_locks f r x hs hx hown hok hops
+
+open CGV.MvccFull in
+/-- (1) async branch: when the acknowledged prewrite is answered with a min_commit_ts, every locking mutation's key that
+    was not already locked by the transaction now carries an ASYNC-COMMIT lock of it -/
+theorem acknowledged_async_prewrite_writes_async_locks (f : FStore) (r : PrewriteReq) (x : FPrewriteExtra) (hs : SInv f.base)
+    (hx : x.tryOnePC = false) (hown : ownCommitTS f r = none)
+    (hok : (fprewrite f r x).2.errs.any Option.isSome = false)
+    (hops : ∀ m ∈ r.mutations, m.op ≠ .pessimisticLock) (hmc : (fprewrite f r x).2.minCommitTS ≠ 0) :
+    ∀ m ∈ r.mutations, m.op ≠ .checkNotExists →
+      PrewriteLocked f r.startTS m.key ∨
+        ((asyncOf (fprewrite f r x).1 m.key r.startTS).isSome = true ∧ isAsyncLock (fprewrite f r x).1 m.key r.startTS = true) :=
+  fprewrite_ack_async f r x hs.1 hx hown hok hops hmc
+
+/-- (2) a prewrite lock of `T` on `k` is still there after ANY command sequence respecting the callers' contract in which
+    no command can take a `commit T _`, `rollback T` or destroy-range step on `k`: prewrites, pessimistic-lock requests
+    and pessimistic rollbacks (of `T` or anybody), commits / rollbacks / resolves of other transactions, status checks
+    of other transactions, heartbeats and GC all leave it in place -/
+theorem prewrite_lock_stays_until_own_commit_or_rollback (T : TS) (k : Bytes) (s : Store) (cs : List Cmd) (hs : SInv s)
+    (hok : OkAll s cs) (hg : GuardAll (fun _ lab => lab.keepsLock T) k s cs)
+    (hl : ∃ l, (getEntry s.kv k).lock = some l ∧ l.startTS = T ∧ l.op ≠ .pessimisticLock) :
+    ∃ l, (getEntry (runAll s cs).kv k).lock = some l ∧ l.startTS = T ∧ l.op ≠ .pessimisticLock :=
+  runAll_lock_kept T k s cs hs hok hg hl
+
+/-- (2) one step of the per-key transition system: the labels that can remove or replace a prewrite lock of `T` are
+    exactly `commit T _`, `rollback T`, `locks _`, `unlock`, `wipe` (the store's `locks` / `unlock` steps never hit a
+    key with a prewrite lock, which is what the command-level statement above uses) -/
+theorem prewrite_lock_kept_by_step {e e' : Entry} {lab : KLabel} {T : TS} (h : KStep e lab e')
+    (hl : LockedBy e T) (hg : lab.keepsLockStep T) : LockedBy e' T := h.lock_kept hl hg
+
+open CGV.MvccFull in
+/-- (2) in the full store: a base command served through `settle` keeps the lock under the same guard; a prewrite request
+    of any kind keeps it; a CheckSecondaryLocks that finds all its keys locked keeps it -/
+theorem prewrite_lock_stays_in_full_store (f : FStore) (T : Nat) (k : Bytes) (hs : SInv f.base) (hl : PrewriteLocked f T k) :
+    (∀ c : Cmd, c.Ok f.base → (∀ lab, c.labels k lab → lab.keepsLock T) → PrewriteLocked (f.settle (c.run f.base)) T k) ∧
+    (∀ r x, PrewriteLocked (fprewrite f r x).1 T k) ∧
+    (∀ keys T', (∀ k' ∈ keys, PrewriteLocked f T' k') → PrewriteLocked (fcheckSecondaryLocks f keys T').1 T k) :=
+  ⟨fun c hok hg => settle_cmd_lock_kept f c hs hok k T hl hg,
+   fun r x => fprewrite_keeps_locks f r x hs.1 T k hl,
+   fun keys T' h => fcheckSecondaryLocks_all_locked_keeps f keys T' h k T hl⟩
+
+open CGV.MvccFull in
+/-- (3) a status check that meets an async-commit primary does not roll it back, however old it is -/
+theorem async_primary_survives_status_check (f : FStore) (p : Bytes) (T caller cur : Nat) (rb rp : Bool)
+    (h : isAsyncLock f p T = true) :
+    (fcheckTxnStatus f p T caller cur rb rp false).1.base = f.base ∧
+      (fcheckTxnStatus f p T caller cur rb rp false).2.base.action = .noAction ∧
+      (fcheckTxnStatus f p T caller cur rb rp false).2.base.commitTS = 0 ∧
+      (fcheckTxnStatus f p T caller cur rb rp false).2.base.err = none :=
+  fcheckTxnStatus_async_primary_untouched f p T caller cur rb rp h
+
+open CGV.MvccFull in
+/-- ALL PREWRITES ACKNOWLEDGED ⇒ ONLY COMMIT.  Run the prewrite batches of transaction `T` (in any grouping, keys may
+    repeat, other transactions' prewrites of any kind in between), every one of them acknowledged (`AckedAll`).  Then
+    CheckSecondaryLocks for `T` over ANY list of keys the batches locked — the secondaries the primary names — answers
+    every key locked, commit ts 0, writes nothing, and all those keys are still locked afterwards.  By rule 4
+    (`accepted_resolve_obeys_rule4`) a resolver that got this answer may only commit, at the largest min_commit_ts
+    reported; a rollback needs a `0` outcome among the secondaries or a rolled-back status, neither of which the store
+    gives while the locks are there (`prewrite_lock_stays_…`, `async_primary_survives_status_check`). -/
+theorem all_acknowledged_async_prewrites_force_commit (f : FStore) (rs : List (PrewriteReq × FPrewriteExtra)) (T : Nat)
+    (keys : List Bytes) (hs : KvSorted f.base.kv) (hack : AckedAll T f rs)
+    (hkeys : ∀ k ∈ keys, ∃ q ∈ rs, q.1.startTS = T ∧ ∃ m ∈ q.1.mutations, m.key = k ∧ m.op ≠ .checkNotExists) :
+    let f' := fprewriteAll f rs
+    (fcheckSecondaryLocks f' keys T).2.commitTS = 0 ∧
+      (fcheckSecondaryLocks f' keys T).2.locks.map (·.key) = keys ∧
+      (fcheckSecondaryLocks f' keys T).1 = f'.settle { f'.base with kv := applyBatch f'.base.kv [] } ∧
+      ∀ k ∈ keys, PrewriteLocked (fcheckSecondaryLocks f' keys T).1 T k := by
+  intro f'
+  have hall : ∀ k ∈ keys, PrewriteLocked f' T k := by
+    intro k hk
+    obtain ⟨q, hq, hT, m, hm, rfl, hne⟩ := hkeys k hk
+    exact fprewriteAll_ack_locks f rs T hs hack q hq hT m hm hne
+  obtain ⟨h1, h2, h3⟩ := sec_all_locked f' keys T hall
+  exact ⟨h1, h2, h3, fun k hk => fcheckSecondaryLocks_all_locked_keeps f' keys T hall k T (hall k hk)⟩
+
+/-- non-vacuity of `acknowledged_prewrite_locks_every_key` / `acknowledged_async_prewrite_writes_async_locks`: an async
+    prewrite of two keys on the empty store meets every hypothesis (and is answered with a min_commit_ts) -/
+example :
+    let f : MvccFull.FStore := {}
+    let r : PrewriteReq := { mutations := [⟨.put, [0x61], [1], .none⟩, ⟨.insert, [0x62], [2], .none⟩, ⟨.checkNotExists, [0x63], [], .none⟩],
+                             primary := [0x61], startTS := 10, ttl := 3000 }
+    let x : MvccFull.FPrewriteExtra := { useAsync := true, secondaries := [[0x62]] }
+    SInv f.base ∧ x.tryOnePC = false ∧ MvccFull.ownCommitTS f r = none ∧
+      (MvccFull.fprewrite f r x).2.errs.any Option.isSome = false ∧ (∀ m ∈ r.mutations, m.op ≠ .pessimisticLock) ∧
+      (MvccFull.fprewrite f r x).2.minCommitTS ≠ 0 ∧ (∃ m ∈ r.mutations, m.op ≠ .checkNotExists) :=
+  ⟨SInv.empty, rfl, by decide, by decide, by decide, by decide, by decide⟩
+
+/-- non-vacuity of `acknowledged_prewrite_locks_every_key_base`, with a repeated key -/
+example :
+    let r : PrewriteReq := { mutations := [⟨.put, [0x61], [1], .none⟩, ⟨.del, [0x61], [], .none⟩], primary := [0x61], startTS := 10, ttl := 3000 }
+    SInv ({} : Store) ∧ (prewrite {} r).2.any Option.isSome = false ∧ (∀ m ∈ r.mutations, m.op ≠ .pessimisticLock) :=
+  ⟨SInv.empty, by decide, by decide⟩
+
+/-- non-vacuity of `prewrite_lock_stays_until_own_commit_or_rollback`: transaction 10 holds a prewrite lock on `a`;
+    a prewrite of transaction 20 on `a` and `b`, a heartbeat of 10, a commit of 20's key `b` and a resolve-rollback of 20
+    over the whole range all satisfy the contract and the guard -/
+example :
+    let r : PrewriteReq := { mutations := [⟨.put, [0x61], [1], .none⟩], primary := [0x61], startTS := 10, ttl := 3000 }
+    let s : Store := (prewrite {} r).1
+    let cs : List Cmd := [.prewrite { mutations := [⟨.put, [0x61], [7], .none⟩, ⟨.put, [0x62], [8], .none⟩], primary := [0x62], startTS := 20, ttl := 3000 },
+                          .heartbeat [0x61] 10 9000, .commit [[0x62]] 20 25, .resolve [] [] 20 0]
+    SInv s ∧ OkAll s cs ∧ GuardAll (fun _ lab => lab.keepsLock 10) [0x61] s cs ∧
+      (∃ l, (getEntry s.kv [0x61]).lock = some l ∧ l.startTS = 10 ∧ l.op ≠ .pessimisticLock) := by
+  intro r s cs
+  refine ⟨SInv_prewrite {} s r (prewrite {} r).2 SInv.empty rfl, ⟨trivial, trivial, ⟨by decide, by decide⟩, Or.inl rfl, trivial⟩, ?_,
+    (MvccFull.prewriteLocked_iff { base := s } 10 [0x61]).2 (by decide)⟩
+  refine ⟨?_, ?_, ?_, ?_, trivial⟩
+  · intro lab h; rcases h with rfl | rfl <;> trivial
+  · intro lab h; rcases h with rfl | ⟨_, rfl⟩ <;> trivial
+  · intro lab h; rcases h with rfl | ⟨_, rfl⟩
+    · trivial
+    · show (20 : Nat) ≠ 10; decide
+  · intro lab h; rcases h with rfl | ⟨_, ⟨h0, _⟩ | ⟨_, rfl⟩⟩
+    · trivial
+    · exact absurd h0 (by decide)
+    · show (20 : Nat) ≠ 10; decide
+
+/-- non-vacuity of `all_acknowledged_async_prewrites_force_commit`: the primary batch and the secondary batch of an
+    async-commit transaction, with a one-phase commit of another transaction in between, all acknowledged -/
+example :
+    let rs : List (PrewriteReq × MvccFull.FPrewriteExtra) :=
+      [({ mutations := [⟨.put, [0x61], [1], .none⟩], primary := [0x61], startTS := 10, ttl := 3000 }, { useAsync := true, secondaries := [[0x62]] }),
+       ({ mutations := [⟨.put, [0x70], [9], .none⟩], primary := [0x70], startTS := 12, ttl := 3000 }, { tryOnePC := true }),
+       ({ mutations := [⟨.put, [0x62], [2], .none⟩], primary := [0x61], startTS := 10, ttl := 3000 }, { useAsync := true })]
+    KvSorted ({} : MvccFull.FStore).base.kv ∧ MvccFull.AckedAll 10 {} rs ∧
+      ∀ k ∈ [[0x62]], ∃ q ∈ rs, q.1.startTS = 10 ∧ ∃ m ∈ q.1.mutations, m.key = k ∧ m.op ≠ .checkNotExists := by
+  intro rs
+  refine ⟨trivial, ⟨fun _ => ⟨rfl, by decide, by decide, by decide⟩, fun h => absurd h (by decide),
+    fun _ => ⟨rfl, by decide, by decide, by decide⟩, trivial⟩, ?_⟩
+  intro k hk
+  simp only [List.mem_cons, List.not_mem_nil, or_false] at hk
+  subst hk
+  exact ⟨_, List.mem_cons_of_mem _ (List.mem_cons_of_mem _ (List.mem_cons_self ..)), rfl, _, List.mem_cons_self .., rfl, by decide⟩
 
 /-- non-vacuity: after an acknowledged async prewrite of two keys both are `PrewriteLocked` -/
 example :
